@@ -15,7 +15,8 @@ FIRST_TRY = {'C01': True, 'C02': True, 'C03': False, 'C04': True, 'C05': False, 
              'C09c': True, 'C10c': False, 'C11c': True, 'C12c': True, 'C14c': True, 'C15c': True, 'C16c': False, 'C17c': True,
              'C18c': True, 'C19c': False, 'C20c': False, 'C13d': False,
              'C01e': True, 'C02e': False, 'C03e': False, 'C04e': False, 'C05e': False, 'C06e': True, 'C07e': True, 'C08e': True, 'C09e': False,
-             'C10e': False}
+             'C10e': False, 'C11e': False, 'C12e': True, 'C13e': True, 'C14e': True, 'C15e': False, 'C16e': True, 'C17e': True,
+             'C18e': True, 'C19e': True, 'C20e': False}
 REJECTED = {
     'C13c': 'not confirmed: the change only matters when dataReceived() is called again after the agent\'s own '
             'transport.loseConnection(); Twisted\'s TCP transport stops reading at that point (FileDescriptor.loseConnection -> '
@@ -42,6 +43,9 @@ STRENGTHEN = {
     'C05e': 'the peer BGP identifier became a per-session dimension (a peer coming back with another router-id)',
     'C09e': 'caught by C05, whose subject it is (AS-number width of a session follows the capabilities both sides advertised); C09 checks the codec and is not affected by a session-layer change',
     'C10e': 'caught by C02 and C05 from the start (the next OPEN differs from a fresh one); C10 itself now has an earlier session with a one-capability peer OPEN that the agent ends, and an absolute oracle for the good messages (a well-formed UPDATE in the session\'s AS mode is reported as exactly that), not only the comparison with the control run',
+    'C11e': 'new "TLV tower" inputs: every registered link-state / prefix-SID TLV type nested inside itself as deep as 4000 octets allow, for 14 lengths of fixed octets in front of the sub-TLVs and 5 innermost values (missing, empty, cut short); the work budget then exposes decoding whose cost grows exponentially with the nesting depth',
+    'C15e': 'the BGP-LS NLRI pool now holds the same node-descriptor octets under every Protocol-ID (1-7), so that a list can mix NLRIs whose identical descriptors must be read differently',
+    'C20e': 'update payloads of 500 / 1000 prefixes (records of 10-20 KB, longer than any BGP message) in histories, torn writes (offsets up to 30000) and the exhaustive alphabet',
     'C16c': 'send cases now run with [bgp] rib on or off and with 0-2 earlier announcements on the same session whose prefixes the checked request may withdraw or re-announce (a withdraw list mixing announced and never-announced prefixes is the trigger)',
     'C19c': 'new operation: one peer UPDATE that carries IPv4 withdrawn routes together with a flowspec / VPNv4 MP_REACH or MP_UNREACH attribute; both parts must be applied (patch rebased onto the current tree because a later fix touched the same lines; original kept as patch.orig.diff)',
     'C20c': 'the peer address as configured became a dimension (IPv4, lower-case IPv6, upper-case IPv6) and a handler callback that raises is now a violation (event not logged) instead of a harness error',
@@ -72,7 +76,7 @@ def main():
     with open(os.path.join(HERE, 'seeded', 'INDEX.md'), 'w') as f:
         f.write('# Seeded changes (written by fresh sub-agents that saw only the property text)\n\n'
                 'Round 1: one change per property (C01..C20). Round 2 (ids ending in b): a second, different change for all twenty\n'
-                'properties. Round 3 (ids ending in c / d): a third one, the sub-agent being told what rounds 1 and 2 had changed.\n'
+                'properties. Rounds 3 and 4 (ids ending in c / d and e): further ones, the sub-agent being told what the earlier rounds had changed.\n'
                 'Each directory holds patch.diff, the agent\'s demo.py, meta.json (incl. what the verifier ran) and\n'
                 'result.txt; `tools/try_seed.sh <id>` re-runs the confirmation on scratch copies of /repo.\n\n'
                 '| id | change | needs | caught on first run | final check result |\n|---|---|---|---|---|\n')
